@@ -150,11 +150,16 @@ func unary(c *check, server bool) {
 	for grant := 0; grant < 2; grant++ {
 		for cr := range callResults {
 			for cls := 0; cls < 3; cls++ {
-				for opt := 0; opt < 4; opt++ {
+				for opt := 0; opt < 12; opt++ {
+					// bits 0-1: custom classifiers; opt/4: 0 no naming options, 1 WithName+WithTags first, 2 WithName+WithTags last
+					naming := opt / 4
 					choices := []int{grant, cr, cls, opt}
 					log := &evlog{}
 					lim := &recLimiter{name: "limiter", grant: grant == 1, log: log}
 					opts := []gl.InterceptorOption{gl.WithLimiter(lim)}
+					if naming == 1 {
+						opts = append([]gl.InterceptorOption{gl.WithName("svc"), gl.WithTags([]string{"a:b"})}, opts...)
+					}
 					custom := opt&1 != 0
 					if custom {
 						if server {
@@ -174,6 +179,9 @@ func unary(c *check, server bool) {
 							return "busy", codes.Unavailable, errors.New("busy")
 						}))
 					}
+					if naming == 2 {
+						opts = append(opts, gl.WithName("svc"), gl.WithTags([]string{"a:b"}))
+					}
 					res := callResults[cr]
 					wantKind := "OnSuccess"
 					if custom {
@@ -190,7 +198,7 @@ func unary(c *check, server bool) {
 							log.add("call")
 							return res.resp, res.err
 						})
-						what = fmt.Sprintf("unary server grant=%v result=%d classifier=%v(%s) limitExceeded=%v", grant == 1, cr, custom, kindNames[cls], opt&2 != 0)
+						what = fmt.Sprintf("unary server grant=%v result=%d classifier=%v(%s) limitExceeded=%v naming-options=%s", grant == 1, cr, custom, kindNames[cls], opt&2 != 0, []string{"none", "first", "last"}[naming])
 					} else {
 						ic := gl.UnaryClientInterceptor(opts...)
 						gotErr = ic(context.Background(), "/svc/M", "req", "reply", nil, func(ctx context.Context, method string, req, reply interface{}, cc *golangGrpc.ClientConn, o ...golangGrpc.CallOption) error {
@@ -198,7 +206,7 @@ func unary(c *check, server bool) {
 							return res.err
 						})
 						gotResp = res.resp
-						what = fmt.Sprintf("unary client grant=%v result=%d classifier=%v(%s) limitExceeded=%v", grant == 1, cr, custom, kindNames[cls], opt&2 != 0)
+						what = fmt.Sprintf("unary client grant=%v result=%d classifier=%v(%s) limitExceeded=%v naming-options=%s", grant == 1, cr, custom, kindNames[cls], opt&2 != 0, []string{"none", "first", "last"}[naming])
 					}
 					side := map[bool]string{true: "unary-server", false: "unary-client"}[server]
 					c.expect(side, choices, log.ev, "limiter", grant == 1, wantKind, what)
@@ -253,7 +261,7 @@ type ss struct {
 	next error
 }
 
-func (s *ss) Context() context.Context   { return context.Background() }
+func (s *ss) Context() context.Context    { return context.Background() }
 func (s *ss) RecvMsg(m interface{}) error { s.log.add("call"); return s.next }
 func (s *ss) SendMsg(m interface{}) error { s.log.add("call"); return s.next }
 
@@ -287,13 +295,20 @@ func streams(c *check, maxLen int) {
 		}
 	}
 	gen(nil)
-	for opt := 0; opt < 4; opt++ {
+	for opt := 0; opt < 12; opt++ {
+		naming := opt / 4
 		for _, seq := range seqs {
+			if naming != 0 && len(seq) > 2 {
+				continue // option-order variants: sequences up to 2 are enough
+			}
 			log := &evlog{}
 			recv := &recLimiter{name: "recv", log: log}
 			send := &recLimiter{name: "send", log: log}
 			curCls := 0
 			opts := []gl.StreamInterceptorOption{gl.WithStreamRecvLimiter(recv), gl.WithStreamSendLimiter(send)}
+			if naming == 1 {
+				opts = append([]gl.StreamInterceptorOption{gl.WithStreamSendName("s"), gl.WithStreamRecvName("r")}, opts...)
+			}
 			custom := opt&1 != 0
 			if custom {
 				opts = append(opts,
@@ -314,6 +329,9 @@ func streams(c *check, maxLen int) {
 					gl.WithStreamSendLimitExceededResponseClassifier(func(ctx context.Context, method string, req interface{}, l core.Limiter) (interface{}, codes.Code, error) {
 						return nil, codes.Aborted, errors.New("send busy")
 					}))
+			}
+			if naming == 2 {
+				opts = append(opts, gl.WithStreamSendName("s"), gl.WithStreamRecvName("r"))
 			}
 			inner := &ss{log: log}
 			ic := gl.StreamServerInterceptor(opts...)
